@@ -654,6 +654,16 @@ func (e c13Engine) RunSeed(tier string, seed uint64, idx int) *core.Result {
 		r.key(fmt.Sprintf("extend|%s|%s|%s|open=%v", sc.Hash, bclass, d.Tail, opened))
 		restore()
 	}
+	{
+		// a directory under the entry's name
+		d := diskFault{Kind: "dir"}
+		r.applyDisk(ti, &d)
+		opened := r.check(ti, mkDisk(ti, d))
+		res.Faults["dir"]++
+		r.key(fmt.Sprintf("dir|%s|open=%v", sc.Hash, opened))
+		r.w.RemoveDirRaw(path)
+		restore()
+	}
 	for o := range r.keys {
 		if o == ti {
 			continue
